@@ -518,7 +518,7 @@ def gen_scenario(rng: common.Rng, cfg: dict[str, Any]) -> list[list[Any]]:
         kind = "forms"
     if kind == "forms" and not n_dflt:
         kind = "alias-in"
-    if tol > 0 and cfg["kind"] != "none" and rng.chance(0.2):
+    if tol > 0 and cfg["kind"] != "none" and rng.chance(0.3):
         kind = "jac-near"
     if kind == "jac-near" and tol == 0:
         kind = "jac-first"
@@ -627,9 +627,12 @@ def gen_scenario(rng: common.Rng, cfg: dict[str, Any]) -> list[list[Any]]:
         call(a0, "exec")
         ops.append(["clear"])
         ops.append(["lin", rng.pick(["all", "sub"]), 0, dict(a0) if rng.chance(0.6) else fresh_args({focus: x0}, omit_defaults=False)])
-        call(fresh_args({focus: x1}, omit_defaults=False), rng.pick(["exec", "exec", "exec", "lin-all"]))
-        for _ in range(rng.randint(1, 3)):
-            call(fresh_args({focus: rng.pick([x2, x2, x2, x1, x0])}, omit_defaults=False), rng.pick(["exec", "exec", "exec", "lin-all", "lin-sub"]))
+        call(fresh_args({focus: x1}, omit_defaults=False), "exec")
+        if rng.chance(0.25):
+            call(fresh_args({focus: rng.pick([x1, x0])}, omit_defaults=False), rng.pick(["exec", "lin-all", "lin-sub"]))
+        call(fresh_args({focus: x2}, omit_defaults=False), "exec")
+        for _ in range(rng.randint(0, 2)):
+            call(fresh_args({focus: rng.pick([x2, x2, x1, x0])}, omit_defaults=False), rng.pick(["exec", "exec", "exec", "lin-all", "lin-sub"]))
     elif kind == "forms":
         # one input, several forms of the call: every input left to its default value (`execute()`, `execute({})`),
         # some of them / all of them passed explicitly with the same values, the keys of the dict in any order;
@@ -1616,6 +1619,32 @@ def exhaustive_small_inplace(kind: str, tol: str):
             yield cfg, pre + [copy.deepcopy(o) for o in combo]
 
 
+def exhaustive_small_forms(kind: str):
+    """All histories of <= 3 calls over the forms of ONE input (a, b) = (1, 2) of a discipline whose default
+    values are defined in the order b, a (every input defaulted as `execute()` / `{}`, `{a}`, `{b}`, `{b, a}`
+    with the keys in that order, `linearize()`), another input, clear, reopen."""
+    import itertools
+
+    cfg = {
+        "kind": kind, "tol": "0", "inputs": [["a", 1, ["1"]], ["b", 1, ["2"]]], "outputs": [["y", 1]], "din": ["a", "b"],
+        "dout": ["y"], "sj": False, "A": {"y": [[1, 2]]}, "b": {"y": [0]}, "q": {"y": [1]}, "sparse": [], "hash": "real",
+        "sym": False, "wr": {}, "alias": {}, "dorder": ["b", "a"],
+    }
+    plain = {"dict": "fresh", "junk": False}
+    alphabet = [
+        ["exec", {}, {**plain, "empty": "none"}], ["exec", {}, {**plain, "empty": "dict"}], ["exec", {"a": 1}, plain],
+        ["exec", {"b": 2}, plain], ["exec", {"a": 1, "b": 2}, {**plain, "keys": ["b", "a"]}],
+        ["lin", "all", 1, {}, {**plain, "empty": "none"}], ["lin", "all", 1, {"a": 1, "b": 2}, plain],
+        ["exec", {"a": 3}, plain], ["clear"],
+    ]
+    if kind == "hdf":
+        alphabet.append(["reopen"])
+    pre = [["new", 1, ["1"]], ["new", 2, ["2"]], ["new", 3, ["5"]]]
+    for n in range(1, 4):
+        for combo in itertools.product(alphabet, repeat=n):
+            yield cfg, pre + [copy.deepcopy(o) for o in combo]
+
+
 def probe_returned_jacobian(res: Result) -> None:
     """Out-of-quantifier probe (information only): the caller modifies a *returned Jacobian* array."""
     cfg = {"kind": "simple", "tol": "0", "inputs": [["a", 1, None]], "outputs": [["y", 1]], "din": ["a"], "dout": ["y"],
@@ -1649,7 +1678,7 @@ def run(ctx) -> Result:
         "sparse Jacobian blocks, in ~30 % of the cases a body with side effects on its input arrays (in-place update "
         "`arr += k` / `arr[:] = ..` / `np.add(.., out=arr)` of the self-coupled and/or a plain input, an input array or "
         "a full view of it returned as an output; execute-only histories with repeated inputs, calls at the state an "
-        "earlier call reached, the same arrays passed again), for cache in {none, SimpleCache, MemoryFullCache shared/not shared, HDF5Cache}, tolerance in "
+        "earlier call reached, the same arrays passed again), in ~25 % of the cases every input has a default value, the default values are defined in another order than the input names in ~60 % of the configurations with >= 2 defaults, a call passes nothing (`execute()`), `{}`, only extra keys, some or all of the inputs, with the keys of the dict in any order (scenario `forms`: one input in several forms), scenario `jac-near` (t > 0): Jacobian cached before any outputs at x0, then executions at x1, x2 within t of x0 but not of each other; for cache in {none, SimpleCache, MemoryFullCache shared/not shared, HDF5Cache}, tolerance in "
         "{0, 2^-10, 2^-3}, real or coarse (colliding) hash; a case is non-trivial when it has a cache and >= 2 calls; "
         "distinct by configuration line + protocol lines"
     )
@@ -1704,10 +1733,17 @@ def run(ctx) -> Result:
             for i in range(0, len(cases), 2400):
                 check_cases(res, cases[i : i + 2400], rng, parallel=True)
             res.count(f"exhaustive-in-place-body-{kind}-0", len(cases))
+            if kind in FULL and time.time() < ctx.deadline:
+                cases = list(exhaustive_small_forms(kind))
+                check_cases(res, cases, rng, parallel=True)
+                res.count(f"exhaustive-call-forms-{kind}-0", len(cases))
         res.notes.append("exhaustive part: all histories of <= 4 operations over {execute/linearize on 2 arrays, in-place "
                          "modification, clear, reopen} for SimpleCache, MemoryFullCache (shared or not), HDF5Cache, t in {0, 1/8}; "
                          "and over {execute on 3 arrays, in-place modification, clear, reopen} for a body that advances its "
-                         "self-coupled input in place and returns that array (t = 0)")
+                         "self-coupled input in place and returns that array (t = 0); all histories of <= 3 operations over the call "
+                         "forms of one input (execute(), {}, partially / fully explicit with the keys in another order, "
+                         "linearize()) of a discipline whose defaults are defined in another order than its input names, for "
+                         "the full caches (t = 0)")
     if _POOL is not None:
         _POOL.close()
         _POOL.join()
